@@ -37,14 +37,14 @@ type exclusionChecker struct {
 	mode             NavigationExclusionMode
 	bodyNode         *html.Node
 	topLevelWrapper  *html.Node // Single wrapper div/main if present
-	linkDensityCache map[*html.Node]float64
+	subtreeStatsMemo map[*html.Node]linkStats
 }
 
 // newExclusionChecker creates a checker for the given mode and document.
 func newExclusionChecker(mode NavigationExclusionMode, doc *html.Node) *exclusionChecker {
 	checker := &exclusionChecker{
 		mode:             mode,
-		linkDensityCache: make(map[*html.Node]float64),
+		subtreeStatsMemo: make(map[*html.Node]linkStats),
 	}
 
 	// Find body node
@@ -190,69 +190,54 @@ func (ec *exclusionChecker) shouldExcludeByLinkDensity(n *html.Node) bool {
 		return false
 	}
 
-	density := ec.calculateLinkDensity(n)
-
 	// Threshold: if more than 60% of text is within links, likely navigation
 	// Also require a minimum amount of links to avoid false positives on small elements
-	linkCount := countLinks(n)
-	return density > 0.6 && linkCount >= 4
+	return ec.subtreeStats(n).links >= 4 && ec.calculateLinkDensity(n) > 0.6
+}
+
+// linkStats summarises the subtree below a node for the link-density heuristic.
+type linkStats struct {
+	text     int // length of all text, each text node trimmed
+	linkText int // length of the text that stands inside <a> elements
+	links    int // number of <a> elements
 }
 
 // calculateLinkDensity returns the ratio of link text to total text (0.0 to 1.0).
 func (ec *exclusionChecker) calculateLinkDensity(n *html.Node) float64 {
-	if cached, ok := ec.linkDensityCache[n]; ok {
-		return cached
-	}
-
-	totalLen := textLength(n)
-	if totalLen == 0 {
-		ec.linkDensityCache[n] = 0
+	s := ec.subtreeStats(n)
+	if s.text == 0 {
 		return 0
 	}
-
-	linkLen := linkTextLength(n)
-	density := float64(linkLen) / float64(totalLen)
-
-	ec.linkDensityCache[n] = density
-	return density
+	return float64(s.linkText) / float64(s.text)
 }
 
-// textLength returns the total length of text content in a node.
-func textLength(n *html.Node) int {
+// subtreeStats measures the subtree below n in one post-order walk. The result
+// is kept for every element on the way, so that the containers nested inside a
+// container that has been measured are not walked again: checking every level
+// of deeply nested markup costs linear instead of quadratic time.
+func (ec *exclusionChecker) subtreeStats(n *html.Node) linkStats {
 	if n.Type == html.TextNode {
-		return len(strings.TrimSpace(n.Data))
+		return linkStats{text: len(strings.TrimSpace(n.Data))}
+	}
+	if s, ok := ec.subtreeStatsMemo[n]; ok {
+		return s
 	}
 
-	total := 0
+	var s linkStats
 	for c := n.FirstChild; c != nil; c = c.NextSibling {
-		total += textLength(c)
+		cs := ec.subtreeStats(c)
+		s.text += cs.text
+		s.linkText += cs.linkText
+		s.links += cs.links
 	}
-	return total
-}
-
-// linkTextLength returns the length of text content within <a> tags.
-func linkTextLength(n *html.Node) int {
-	if n.Type == html.ElementNode && n.Data == "a" {
-		return textLength(n)
+	if n.Type == html.ElementNode {
+		if n.Data == "a" {
+			s.linkText = s.text // all of it, counted once also when links nest
+			s.links++
+		}
+		ec.subtreeStatsMemo[n] = s
 	}
-
-	total := 0
-	for c := n.FirstChild; c != nil; c = c.NextSibling {
-		total += linkTextLength(c)
-	}
-	return total
-}
-
-// countLinks returns the number of <a> elements within a node.
-func countLinks(n *html.Node) int {
-	count := 0
-	if n.Type == html.ElementNode && n.Data == "a" {
-		count = 1
-	}
-	for c := n.FirstChild; c != nil; c = c.NextSibling {
-		count += countLinks(c)
-	}
-	return count
+	return s
 }
 
 // getAttr returns the value of an attribute on a node, or empty string if not found.
